@@ -591,6 +591,40 @@ func (c *Ctx) termType(t Term) types.Type {
 		if a, ok := x.X.(TAssert); ok && x.K == 0 {
 			return a.To
 		}
+		if call, ok := x.X.(TCall); ok && call.Fun != nil {
+			if sig, ok := call.Fun.Type().(*types.Signature); ok && x.K < sig.Results().Len() && sig.TypeParams() == nil {
+				return sig.Results().At(x.K).Type()
+			}
+		}
+	case TCall:
+		if x.Fun != nil {
+			if sig, ok := x.Fun.Type().(*types.Signature); ok && sig.Results().Len() == 1 && sig.TypeParams() == nil {
+				return sig.Results().At(0).Type()
+			}
+		}
+	case TConv:
+		return x.To
+	case TConst:
+		switch x.Val.Kind() {
+		case constant.Bool:
+			return types.Typ[types.Bool]
+		case constant.String:
+			return types.Typ[types.String]
+		}
+	case TBin:
+		switch x.Op {
+		case token.EQL, token.NEQ, token.LSS, token.LEQ, token.GTR, token.GEQ, token.LAND, token.LOR:
+			return types.Typ[types.Bool]
+		}
+		if t := c.termType(x.X); t != nil {
+			return t
+		}
+		return c.termType(x.Y)
+	case TUn:
+		if x.Op == token.NOT {
+			return types.Typ[types.Bool]
+		}
+		return c.termType(x.X)
 	case TBuiltin:
 		if x.Name == "make" {
 			return x.Type
